@@ -144,12 +144,23 @@ fn segs_of(rng: &mut rand::rngs::StdRng, c: u64) -> Vec<u64> {
 
 fn gen_arrival_small(rng: &mut rand::rngs::StdRng, tmax: u64, exact_only: bool) -> Value {
     let t = rng.gen_range(2..=tmax);
-    match rng.gen_range(0..10) {
+    match rng.gen_range(0..12) {
         0..=2 => json!({"k": "periodic", "T": t}),
-        3..=6 => json!({"k": "sporadic", "T": t, "J": rng.gen_range(0..=t + 2)}),
-        7 | 8 => {
+        3..=5 => json!({"k": "sporadic", "T": t, "J": rng.gen_range(0..=t + 2)}),
+        // jitter at and around multiples of the period (bursts)
+        6 => {
+            let t2 = rng.gen_range(2..=tmax.min(4));
+            let k = rng.gen_range(1..=2u64);
+            let j = (k * t2 + rng.gen_range(0..=2)).saturating_sub(1);
+            json!({"k": "sporadic", "T": t2, "J": j})
+        }
+        7..=9 => {
+            // auto-extrapolating prefixes; length 3 with a large middle entry makes the "equal halves" split matter
             let len = rng.gen_range(2..=3);
-            let dm = crate::gen::dmin_prefix(rng, len, t, false);
+            let mut dm = crate::gen::dmin_prefix(rng, len, t, false);
+            if len == 3 && rng.gen_bool(0.5) {
+                dm[2] = dm[0] + dm[1];
+            }
             json!({"k": "xcurve", "of": {"k": "curve", "d": dm}})
         }
         _ => {
